@@ -41,7 +41,7 @@ def op_case(rng, cid):
     d = ds + (1 if has_t else 0)
     m = 1 if op == 0 else ds
     s, r = spinn(rng, d, m, "nonstatio_PDE" if has_t else "statio_PDE")
-    B = rng.randint(1, 3)
+    B = [1, 2, 3][cid % 3]            # fewer, as many, more points per axis than space dimensions
     coords = [[dy(rng) for _ in range(B)] for _ in range(d)]
     arr = jnp.array(coords).T
     P = Params(nn_params=s.init_params(), eq_params={})
@@ -65,16 +65,17 @@ def grid_eval(fn_point, t, x):
     return np.array(out.tolist(), dtype=float)
 
 
-def impl_vs_impl(rng, n):
-    """separable vs pointwise on the built-in residuals and on the loss terms (tolerance 1e-9)"""
+def impl_vs_impl(rng, n, residuals_only=False):
+    """separable vs pointwise on the built-in residuals and on the loss terms (tolerance 1e-9); the number of
+    points per axis is 1, 2 or 3 (fewer, as many, more than the space dimension)"""
     jax, jnp, np, eqx, jinns = jx()
     from jinns.parameters import Params, ParamsDict
     from jinns.data._Batchs import PDEStatioBatch, PDENonStatioBatch
     fails = []
     close = lambda a, b: np.allclose(np.asarray(a), np.asarray(b), rtol=1e-9, atol=1e-11)
-    B = 2
-    for _ in range(n):
-        t = jnp.array([[dy(rng, 0, 3)], [dy(rng, 0, 3) + 0.125]])
+    for rnd in range(n):
+        B = [1, 2, 3][rnd % 3]
+        t = jnp.array([[dy(rng, 0, 3) + 0.125 * k] for k in range(B)])
         for name, mk, dx, eqp in [
                 ("BurgerEquation", lambda: jinns.loss.BurgerEquation(Tmax=2.0), 1, {"nu": jnp.array(0.25)}),
                 ("FisherKPP", lambda: jinns.loss.FisherKPP(Tmax=2.0), rng.choice([1, 2]), {"D": jnp.array(0.5), "r": jnp.array(1.5), "g": jnp.array(0.75)}),
@@ -86,7 +87,7 @@ def impl_vs_impl(rng, n):
             fw = np.asarray(L.evaluate(t, x, s, Ps))
             rv = grid_eval(lambda tt, xx: L.evaluate(tt, xx, tw, Pt), t, x)
             if not close(fw.reshape(rv.shape), rv):
-                fails.append({"detail": f"{name}: the separable residual differs from the pointwise one on the grid", "case": dict(what="residual", name=name, dx=dx)})
+                fails.append({"detail": f"{name}: the separable residual differs from the pointwise one on the grid ({B} point(s) per axis, {dx} space dimension(s))", "case": dict(what="residual", name=name, dx=dx, B=B)})
         su, _ = spinn(rng, 2, 2, "statio_PDE"); sp, _ = spinn(rng, 2, 1, "statio_PDE")
         tu, tp = make_twin(su, False), make_twin(sp, False)
         x = jnp.array([[dy(rng), dy(rng)] for _ in range(B)])
@@ -97,7 +98,9 @@ def impl_vs_impl(rng, n):
             fw = np.asarray(L.evaluate(x, {"u": su, "p": sp}, PDs))
             rv = grid_eval(lambda tt, xx: L.evaluate(xx, {"u": tu, "p": tp}, PDt), None, x)
             if not close(fw.reshape(rv.shape), rv):
-                fails.append({"detail": f"{nm}: the separable residual differs from the pointwise one on the grid", "case": dict(what="residual", name=nm)})
+                fails.append({"detail": f"{nm}: the separable residual differs from the pointwise one on the grid ({B} point(s) per axis)", "case": dict(what="residual", name=nm, B=B)})
+        if residuals_only:
+            continue
         # loss terms: stationary loss with Dirichlet / Neumann boundary and normalisation, 2-D
         for cond in ("dirichlet", "von neumann"):
             s, r = spinn(rng, 2, 1, "statio_PDE"); tw = make_twin(s, False)
@@ -124,6 +127,22 @@ def impl_vs_impl(rng, n):
             for k in ts:
                 if not close(ts[k], tt[k]):
                     fails.append({"detail": f"stationary loss ({cond}): term {k} is {float(ts[k])} on the separable network and {float(tt[k])} on its pointwise twin", "case": dict(what="terms", cond=cond, term=k)})
+        # 1-D non-stationary Neumann term, B time points: the separable network sees the (t_i) x {xmin, xmax} grid
+        s, r = spinn(rng, 2, 1, "nonstatio_PDE"); tw = make_twin(s, True)
+        Ps = Params(nn_params=s.init_params(), eq_params={}); Pt = Params(nn_params=tw.init_params(), eq_params={})
+        ts = jnp.array([[0.25 * (k + 1) + dy(rng, 0, 2)] for k in range(B)])
+        xs = jnp.array([[dy(rng)] for _ in range(B)])
+        bord = jnp.stack([jnp.concatenate([ts, jnp.full((B, 1), xb)], axis=1) for xb in (-1.0, 2.0)], axis=-1)          # (B, 2, 2)
+        common = dict(dynamic_loss=None, omega_boundary_fun=lambda t, x: 0.5, omega_boundary_condition="von neumann")
+        Ls = jinns.loss.LossPDENonStatio(u=s, params=Ps, **common); Lt = jinns.loss.LossPDENonStatio(u=tw, params=Pt, **common)
+        txs = jnp.concatenate([ts, xs], axis=1)
+        try:
+            _, a = Ls.evaluate(Ps, PDENonStatioBatch(times_x_inside_batch=txs, times_x_border_batch=bord))
+            _, b = Lt.evaluate(Pt, PDENonStatioBatch(times_x_inside_batch=txs, times_x_border_batch=bord))
+            if not close(a["boundary_loss"], b["boundary_loss"]):
+                fails.append({"detail": f"1-D non-stationary Neumann term with {B} time point(s): {float(a['boundary_loss'])} on the separable network, {float(b['boundary_loss'])} on its pointwise twin", "case": dict(what="terms", cond="von neumann 1-D non-stationary", B=B)})
+        except Exception as ex:
+            fails.append({"detail": f"1-D non-stationary Neumann term with {B} time point(s) raised {type(ex).__name__}: {str(ex)[:160]}", "case": dict(what="terms", cond="von neumann 1-D non-stationary", B=B)})
     return fails
 
 
@@ -142,7 +161,7 @@ def generate(tier, seed, casedir, variant):
         dist[k] = dist.get(k, 0) + 1
         if len(samples) < 2:
             samples.append(m)
-    nio = 2 if tier == "quick" else 10
+    nio = 3 if tier == "quick" else 12
     try:
         viol += impl_vs_impl(rng, nio)
     except Exception as ex:
@@ -150,7 +169,7 @@ def generate(tier, seed, casedir, variant):
     dist["impl_vs_impl_rounds"] = nio
     write_cases(casedir, "C11", "R_C11", variant, cases, chunk=60)
     return dict(meta=meta, oracle_violations=viol, evaluations=len(cases) + nio * 7, distinct_nontrivial=len(cases), samples=samples, distribution=dist,
-                rule="forward-mode Laplacian / divergence of random separable networks (1..3 spatial dimensions, with and without time, embedding size 1..3, 1..3 batch points, three grid indices each) against the operator model on the network's expression; plus, implementation against implementation, the six built-in residuals and the dynamic / boundary (Dirichlet, Neumann) / normalisation terms of LossPDEStatio on a separable network and on its pointwise twin over the whole grid; all cases distinct (fresh random weights)",
+                rule="forward-mode Laplacian / divergence of random separable networks (1..3 spatial dimensions, with and without time, embedding size 1..3, 1..3 batch points, three grid indices each) against the operator model on the network's expression; plus, implementation against implementation, the six built-in residuals and the dynamic / boundary (Dirichlet, Neumann) / normalisation terms of LossPDEStatio and the 1-D Neumann term of LossPDENonStatio on a separable network and on its pointwise twin over the whole grid, with 1 / 2 / 3 points per axis; all cases distinct (fresh random weights)",
                 oracle_checks=nio * 7)
 
 
